@@ -91,7 +91,7 @@ class InstanceSpace:
             self.size, self.decode,
             'every candidate graph (each storm >=1 candidate, each rise '
             '>=1 storm), every strict storm order, every %s rise order'
-            % ('weak' if self.ties else 'strict'))
+            % ('weak' if self.ties else 'strict'), decoy_every=8192)
 
 
 def all_matchings(storm_lists):
